@@ -1,9 +1,67 @@
-//! C18 helper: decode a package file with the real dora-bytecode decoder, re-encode it and
-//! compare byte for byte. Exit 0 = identical, 1 = differs, 2 = refused by the decoder.
+//! C18 helper linked against the real dora-bytecode decoder.
+//!   pkgrt <package>                       decode, re-encode, compare: 0 identical, 1 differs, 2 refused
+//!   pkgrt --sweep <package> <tstride> <fstride>
+//!       in-process fault sweep: every tstride-th single-byte truncation, every bit of the first
+//!       and last 64 bytes, and one bit of every fstride-th byte; every damaged image must be
+//!       refused by the decoder. Prints one "ACCEPTED ..." / "PANIC ..." line per offending case
+//!       and a "SWEEP truncations=N flips=M offending=K" summary; exit 1 if any case offends.
+use std::panic::{catch_unwind, AssertUnwindSafe};
+
 fn main() {
-    let path = std::env::args().nth(1).expect("usage: pkgrt <package>");
-    let bytes = std::fs::read(&path).expect("cannot read package");
-    let program = match dora_bytecode::read_program_from_file(std::path::Path::new(&path)) {
+    let args: Vec<String> = std::env::args().collect();
+    if args.len() >= 5 && args[1] == "--sweep" {
+        std::panic::set_hook(Box::new(|_| {}));
+        let bytes = std::fs::read(&args[2]).expect("cannot read package");
+        let tstride: usize = args[3].parse().unwrap();
+        let fstride: usize = args[4].parse().unwrap();
+        let n = bytes.len();
+        let mut offending = 0usize;
+        let mut truncs = 0usize;
+        let mut flips = 0usize;
+        let mut check = |what: String, data: &[u8]| {
+            let r = catch_unwind(AssertUnwindSafe(|| dora_bytecode::decode_program_from_bytes(data).is_ok()));
+            match r {
+                Ok(false) => {}
+                Ok(true) => {
+                    println!("ACCEPTED {}", what);
+                    offending += 1;
+                }
+                Err(_) => {
+                    println!("PANIC {}", what);
+                    offending += 1;
+                }
+            }
+        };
+        let mut k = 0;
+        while k < n {
+            check(format!("truncate {}", k), &bytes[..k]);
+            truncs += 1;
+            k += tstride.max(1);
+        }
+        let mut positions: Vec<(usize, u8)> = Vec::new();
+        for k in (0..n.min(64)).chain(n.saturating_sub(64)..n) {
+            for b in 0..8u8 {
+                positions.push((k, b));
+            }
+        }
+        let mut k = 64;
+        while k + 64 < n {
+            positions.push((k, ((k * 7) % 8) as u8));
+            k += fstride.max(1);
+        }
+        let mut copy = bytes.clone();
+        for (k, b) in positions {
+            copy[k] ^= 1 << b;
+            check(format!("bitflip {} {}", k, b), &copy);
+            copy[k] ^= 1 << b;
+            flips += 1;
+        }
+        println!("SWEEP truncations={} flips={} offending={}", truncs, flips, offending);
+        std::process::exit(if offending > 0 { 1 } else { 0 });
+    }
+    let path = args.get(1).expect("usage: pkgrt <package> | --sweep <package> <tstride> <fstride>");
+    let bytes = std::fs::read(path).expect("cannot read package");
+    let program = match dora_bytecode::read_program_from_file(std::path::Path::new(path)) {
         Ok(p) => p,
         Err(e) => {
             println!("refused: {}", e);
